@@ -143,6 +143,21 @@ def judge(text, o):
                         if g(as_['ak2'], 1) != echo(ss['st01']) or g(as_['ak2'], 2) != echo(ss['st02'] or '').strip():
                             v.append(('C05|ack|not-nested|AK2 does not name the set', 'AK2 %r vs ST01/ST02 %r/%r' % (as_['ak2'], ss['st01'], ss['st02'])))
         return v
+    # segments of every set of the source, by (group ordinal, set ordinal within the group)
+    src_sets = {}
+    sub_sep = _d[2]
+    gi_ = -1; si_ = -1; cur = None
+    for t in toks:
+        if t.id is None:
+            continue
+        if t.id == 'GS':
+            gi_ += 1; si_ = -1
+        elif t.id == 'ST':
+            si_ += 1; cur = []; src_sets[(gi_, si_)] = cur
+        if cur is not None:
+            cur.append(t)
+        if t.id == 'SE':
+            cur = None
     # addressed back to the sender (the ack is written for the last interchange / group header seen)
     last_isa = src[-1]['isa']
     last_gs = src_groups[-1]['gs']
@@ -187,6 +202,8 @@ def judge(text, o):
                 late_sets += 1
             # itemisation
             v.extend(itemised(ts, as_))
+            # the offending value the tree carries is the value the source has at that place
+            v.extend(values_from_source(ts, src_sets.get((k, len([1 for x in sg['st'][:sg['st'].index(ss)]]))), sub_sep))
         ge = group_errors(tg)
         a9 = ag['ak9']
         only_late = ge > 0 and ge == sum(late_errors(t) for t in tg['st'])
@@ -203,6 +220,33 @@ def judge(text, o):
                 v.append(('C05|ack|AK903', 'AK903 %r, sets received %d' % (g(a9, 3), len(sg['st']))))
             if g(a9, 4) != str(accepted) and not (late_sets and g(a9, 4) == str(accepted + late_sets)):
                 v.append(('C05|ack|AK904', 'AK904 %r, sets without error %d' % (g(a9, 4), accepted)))
+    return v
+
+
+VALUE_CODES = ('4', '5', '7', '8', '9')      # errors about the value an element HAS (6 names the offending character, 1/2/3/10 concern absent or surplus elements)
+
+
+def values_from_source(ts, segs, sub_sep):
+    v = []
+    if not segs:
+        return v
+    for s in ts['segs']:
+        if not isinstance(s['count'], int) or not (1 <= s['count'] <= len(segs)):
+            continue
+        t = segs[s['count'] - 1]
+        if t.id != s['id']:
+            continue
+        for (pos, sub, code, val) in s['ele']:
+            if code not in VALUE_CODES or val is None or not isinstance(pos, int) or not (1 <= pos <= len(t.eles)):
+                continue
+            comps = t.eles[pos - 1]
+            cands = [sub_sep.join(comps), sub_sep.join(ref.trim([comps])[0]) if ref.trim([comps]) else '']
+            if sub and isinstance(sub, int) and 1 <= sub <= len(comps):
+                cands.append(comps[sub - 1])
+            elif not sub and len(comps) == 1:
+                cands.append(comps[0])
+            if val not in cands:
+                v.append(('C05|tree|offending value is not the source value', 'element error %s at %s #%s pos %s-%s carries %r, the source has %r' % (code, s['id'], s['count'], pos, sub, val, cands[0])))
     return v
 
 
